@@ -360,6 +360,10 @@ class World:
             data = [data[p] for p in perm]
         A._data, A._qdata, A._qdata_sorted = data, qd, True
         ps = prestate or self.prestate
+        if ps in ('reversed_first', 'reversed_others'):
+            # exactly one kind of operand is in non-sorted order: the primary operand 'a' / every other tensor
+            is_first = name == self.ns + 'a'
+            ps = 'reversed' if (is_first == (ps == 'reversed_first')) else 'sorted'
         if ps != 'sorted':
             perm = list(range(n))
             if ps == 'reversed':
@@ -1101,19 +1105,22 @@ def b_combine_legs(W, v):
     return Sc([a], lambda a: a.combine_legs(arg, **kw), oracle, labels=None, qtotal=a.qtotal, leg_q=leg_q, extra_live=extra, post=post)
 
 
-@op('split_legs', variants=('first', 'all', 'unsorted', 'two', 'cutoff'), quick=('first', 'unsorted'),
+@op('split_legs', variants=('first', 'all', 'unsorted', 'two', 'two_desc', 'two_labels_desc', 'cutoff'), quick=('first', 'unsorted'),
     labels="reverts combine: '(a.b)' -> 'a','b'; '?#' -> None", qtotal='unchanged')
 def b_split_legs(W, v):
     N = W.npc
     l0, l1, l2 = W.leg(0), W.leg(1), W.leg(2)
     sort = v != 'unsorted'
-    pq = 1 if v != 'two' else -1
+    two = v.startswith('two')
+    pq = 1 if not two else -1
     pipe = N.LegPipe([l0, l1], qconj=pq, sort=sort, bunch=sort)
     W.all_legs.append(pipe)
-    if v == 'two':
+    if two:
         pipe2 = N.LegPipe([l2, l0.conj()], qconj=1, sort=True, bunch=False)
         W.all_legs.append(pipe2)
-        legs, labels, arg = [pipe, pipe2], ['(a.?1)', '(c.d*)'], None
+        legs, labels = [pipe, pipe2], ['(a.?1)', '(c.d*)']
+        # documented: `axes` only *selects* the pipes to split, each is replaced at its position whatever the order given
+        arg = {'two': None, 'two_desc': [1, 0], 'two_labels_desc': ['(c.d*)', '(a.?1)']}[v]
         parts = [[l0, l1], [l2, l0.conj()]]
         specs = [(pq, sort), (1, True)]
         out_labels = ['a', None, 'c', 'd*']
@@ -1185,12 +1192,14 @@ def _in_range(i, n):
     return (i >= -n) & (i < n)
 
 
-@op('take_slice', variants=('one', 'two', 'label'), chain=True, quick=('one', 'label'),
+@op('take_slice', variants=('one', 'two', 'label', 'nothing'), chain=True, quick=('one', 'label', 'nothing'),
     labels='labels of the remaining legs', qtotal='a.qtotal - signed charge of the fixed indices')
 def b_take_slice(W, v):
     a = W.first(min_rank=2 if v == 'two' else 1)
     r = a.rank
     la = a.get_leg_labels()
+    if v == 'nothing':  # no index fixed: documented to return a copy of self
+        return Sc([a], lambda a: a.take_slice([], []), lambda da: da, **_same(a))
     if r == 1:
         raise Skip()  # result would have rank 0: not allowed (documented: no rank-0 arrays)
     axes = [r - 1] if v != 'two' else [r - 1, 0]
@@ -1235,6 +1244,11 @@ def _index_variants(W, a, v):
             raise Skip()
         j = _sym_index(W, 'j', sh[-1], oob=False)
         return (Ellipsis, j), (slice(None), ) * (r - 1) + (j, )
+    if v == 'all_slices':  # a[:, :]: all-trivial indexing, documented as a copy
+        inds = (slice(None), ) * r
+        return inds, inds
+    if v == 'ellipsis_only':  # a[...]
+        return (Ellipsis, ), (slice(None), ) * r
     if v == 'slice':
         s0 = slice(1, None) if sh[0] > 1 else slice(None)
         inds = (s0, ) + ((slice(None, None, 2), ) if r > 1 else ())
@@ -1300,8 +1314,8 @@ def _concrete_full(full):
     return tuple(int(i) if (_is_symint(i) or isinstance(i, (int, np.integer))) else i for i in full)
 
 
-@op('getitem', variants=('ints', 'int_first', 'ellipsis_last', 'slice', 'negstep', 'mask', 'idxarray', 'mixed'), chain=True,
-    quick=('ints', 'int_first', 'negstep', 'mask', 'idxarray', 'mixed'), labels='labels of the axes not indexed by an int',
+@op('getitem', variants=('ints', 'int_first', 'ellipsis_last', 'slice', 'negstep', 'mask', 'idxarray', 'mixed', 'all_slices', 'ellipsis_only'), chain=True,
+    quick=('ints', 'int_first', 'negstep', 'mask', 'idxarray', 'mixed', 'all_slices', 'ellipsis_only'), labels='labels of the axes not indexed by an int',
     qtotal='a.qtotal - signed charge of the int-indexed positions')
 def b_getitem(W, v):
     a = W.first()
@@ -2115,7 +2129,7 @@ def consumers(ctx, W, R, tag, which=('add', 'radd', 'tensordot', 'inner', 'sort_
     dR = np.array(R.to_ndarray())
     r = R.rank
     ch = R.chinfo
-    Wz = World(ctx, dict(W.struct, mods=[int(m) for m in ch.mod]), cplx=W.cplx, subset='all', ns=W.ns + 'z')
+    Wz = World(ctx, dict(W.struct, mods=[int(m) for m in ch.mod]), cplx=W.cplx, subset='all' if W.tier == 'A' else 'draw', ns=W.ns + 'z')
     # one consumer per path (symbolic selector): the forks of the consumers add up instead of multiplying
     which = (which[ctx.choice(W.ns + 'consumer', len(which))], )
 
